@@ -98,9 +98,21 @@ def observe(text):
 import inspect
 import sys
 
-_PP_CODE = YAMLPath._parse_path.__code__
-_src, _first = inspect.getsourcelines(YAMLPath._parse_path)
-_LOOP_LINE = next(_first + i for i, l in enumerate(_src) if l.strip().startswith("for char_idx, char in enumerate(yaml_path)"))
+# The per-character binding reads the parser's local variables by name.  That is a binding to the CURRENT shape of
+# _parse_path: after a refactoring that renames them (behaviour unchanged) the internal states are simply unavailable -
+# INTERNALS_AVAILABLE is False, trace_escaped_parse returns [] and the check falls back to outcomes, segments and strings
+# (never an alarm, never a machinery failure).
+_LOCALS = ("segment_id", "segment_type", "demarc_stack", "escape_next", "search_inverted", "search_method", "search_attr",
+           "search_keyword", "seeking_regex_delim", "capturing_regex", "collector_level", "collector_operator",
+           "seeking_collector_operator", "next_char_must_be", "seeking_anchor_mark", "path_segments")
+try:
+    _PP_CODE = YAMLPath._parse_path.__code__
+    _src, _first = inspect.getsourcelines(YAMLPath._parse_path)
+    _LOOP_LINE = next((_first + i for i, l in enumerate(_src)
+                       if l.strip().startswith("for ") and "enumerate(yaml_path)" in l), None)
+    INTERNALS_AVAILABLE = _LOOP_LINE is not None and all(n in _PP_CODE.co_varnames for n in _LOCALS)
+except (AttributeError, OSError, TypeError):
+    _PP_CODE, _LOOP_LINE, INTERNALS_AVAILABLE = None, None, False
 _TYNAME = {None: "", PathSegmentTypes.KEY: "KEY", PathSegmentTypes.INDEX: "INDEX", PathSegmentTypes.ANCHOR: "ANCHOR",
            PathSegmentTypes.SEARCH: "SEARCH", PathSegmentTypes.KEYWORD_SEARCH: "KEYWORD",
            PathSegmentTypes.COLLECTOR: "COLLECTOR"}
@@ -126,6 +138,8 @@ def trace_escaped_parse(text):
     """
     steps = []
     seen_head = [0]
+    if not INTERNALS_AVAILABLE:
+        return steps
 
     def local(frame, event, arg):
         if event == "line" and frame.f_lineno == _LOOP_LINE:
